@@ -264,8 +264,11 @@ func (w *Watcher) handleUnconfirmedEvents(ctx context.Context, logger *zap.Logge
 		contractEvent := event
 		unconfirmed, err := w.toUnconfirmedEvent(&contractEvent)
 		if err != nil {
-			logger.Error("failed to convert to unconfirmed event", zap.Error(err))
-			return nil, err
+			// Anyone can publish on the governance contract's event stream. An event that cannot be
+			// decoded is not a token bridge message: skip it instead of failing the whole page, which
+			// restarted the watcher and lost the pending and not yet fetched messages.
+			logger.Error("ignore event that can not be converted to a wormhole message", zap.Error(err))
+			continue
 		}
 		if unconfirmed.msg.IsAttestTokenVAA() {
 			logger.Info("received a message", zap.String("txId", unconfirmed.TxId), zap.String("blockHash", unconfirmed.BlockHash), zap.String("type", "attest"))
